@@ -117,14 +117,14 @@ CHECKS = [
          note="Trusted: Kani/CBMC, the check-time copy mechanism. Tree-level reconcile() is decided by E1 (SMT over MIR: BTreeMap keys/chain/collect/sort_unstable/dedup modelled over an ordered universe of 2 (quick) / 3 (thorough) paths, full 32-byte fingerprints): output = exactly the non-Noop per-path table decisions over the union of both sides' paths, base ignored when untrusted. That part is bounded (model checking), the per-path part is proof-level. The Lean model is not used.",
          technique="Kani/CBMC bounded model checking (SAT) of the real function over its full input domain"),
     dict(pid="C20", level="proof", engine="kani",
-         text="Header level (Kani/CBMC, full domain): FrameHeader::{decode,encode,validate,new} and MessageType::from_u8 over all 2^96 header buffers and all valid header values: decode accepts exactly COPA/version 1/type 1..7/length <= 16 MiB, returns the little-endian length, re-encodes to the same bytes, and encode/decode is the identity. Framing level (SMT over MIR): Codec::read_message on ANY wire input (length up to 2^40) never panics, never makes an allocation request above 16 MiB, rejects every malformed header and every short input, on success has handed exactly the announced payload slice to Message::decode, and rejects a complete well-formed frame only if Message::decode rejects its payload however the reader splits the bytes (Read::read modelled by its contract: short reads allowed); Codec::write_message writes COPA | LE length | type code | 1 | flags followed by exactly the encoded payload iff the message is encodable and <= 16 MiB, and nothing otherwise.",
+         text="Header level (Kani/CBMC, full domain): FrameHeader::{decode,encode,validate,new} and MessageType::from_u8 over all 2^96 header buffers and all valid header values: decode accepts exactly COPA/version 1/type 1..7/length <= 16 MiB, returns the little-endian length, re-encodes to the same bytes, and encode/decode is the identity. Framing level (SMT over MIR): Codec::read_message on ANY wire input (length up to 2^40) never panics, never makes an allocation request above 16 MiB, rejects every malformed header and every short input, on success has handed exactly the announced payload slice to Message::decode, and rejects a complete well-formed frame only if Message::decode rejects its payload however the reader splits the bytes (Read::read modelled by its contract: short reads allowed); Codec::write_message writes COPA | LE length | type code | 1 | flags followed by exactly the encoded payload iff the message is encodable and <= 16 MiB, and nothing otherwise. CLI level (SMT over MIR): `copia delta` / `copia patch` on a file that decodes to any value never panic.",
          ref="DESIGN.md §4 C20",
-         note="bincode itself is NOT modelled: Message::encode/decode are contracts (arbitrary payload / arbitrary result on the given slice), so the round trip of field values through bincode and Message::decode's own behaviour on arbitrary bytes are not covered; bincode::deserialize_from is modelled by its hazard (it reserves length prefixes read from the untrusted stream). The CLI file readers (tokio) are not covered. Kani: std::fmt::format stubbed to String::new().",
+         note="bincode itself is NOT modelled: Message::encode/decode are contracts (arbitrary payload / arbitrary result on the given slice), so the round trip of field values through bincode and Message::decode's own behaviour on arbitrary bytes are not covered; bincode::deserialize_from is modelled by its hazard (it reserves length prefixes read from the untrusted stream). CLI file readers (DESIGN §17): run_delta / run_patch are executed from MIR with the file decoding to ANY value (bincode = contract) and every file operation a recorded effect with arbitrary outcome - no decoded block size or field value makes `copia delta` / `copia patch` panic (one schedule: awaits complete at once; AsyncCopiaSync::with_block_size by its assert contract read from the source, engine calls summarised); witnesses are replayed on the real binary with tampered files. Kani: std::fmt::format stubbed to String::new().",
          technique="Kani/CBMC (SAT) over the full 96-bit header space + SMT over MIR for the codec framing and allocation bound; native replay with an allocation-tracking oracle"),
     dict(pid="C05", level="model_checking", engine="kani",
          text="Two engines decide it. E1 (SMT over MIR): CopiaSync::patch AND the AsyncCopiaSync::patch state machine with Delta::validate are executed symbolically on a symbolic basis and a delta whose op KINDS, copy offsets (any u64), copy lengths (any u32), literal bytes, header fields, checksum and the verify flag are all symbolic (op lists up to 3-4 ops): no panic, success implies the output is exactly what the ops describe, no copy reads outside the basis, and (verification on) the output hashes to delta.checksum. E2 (Kani/CBMC) re-decides the sync engine on the compiled code for concrete op-list shapes with copy length <= 4.",
          ref="DESIGN.md §4 C05",
-         note="Bounded: basis <= 5 bytes, <= 4 ops, literals <= 4 bytes (instances listed in evidence). BLAKE3 is idealised in both engines (E1 for C05: the digest is 32 uninterpreted bytes of the content, so StrongHash's own comparison code runs from MIR and partial comparisons are visible; E2: injective padding shim). E1 trusts its in-memory Cursor/Vec/tokio-future models (validated each run against the native build). The `copia patch` process exit status is not covered. Counterexamples are replayed natively in dev and release.",
+         note="Bounded: basis <= 5 bytes, <= 4 ops, literals <= 4 bytes (instances listed in evidence). BLAKE3 is idealised in both engines (E1 for C05: the digest is 32 uninterpreted bytes of the content, so StrongHash's own comparison code runs from MIR and partial comparisons are visible; E2: injective padding shim). E1 trusts its in-memory Cursor/Vec/tokio-future models (validated each run against the native build). The `copia patch` exit status is decided at the level of run_patch from MIR (DESIGN §17): Ok only if AsyncCopiaSync::patch returned Ok, and the output file is touched only by File::create and through that call (file system = recorded effects, one schedule); replayed on the real binary with a tampered delta file. Counterexamples are replayed natively in dev and release.",
          technique="SMT over MIR (sync + async coroutine) and Kani/CBMC bounded model checking; native replay of counterexamples"),
 ]
 
